@@ -65,6 +65,31 @@ BUILT = {
              text="TLC checks FailStopFiles, MissingIsOSError, NoTrailerAccess, Terminates (OpenCall) and FailStop (ImageIO: every cut x rpc); each fault state is applied to synthesised products on local disk and vtrace:// with default and explicit rpc below/at/above n; a returned tree for a damaged product or a non-OSError for a missing file is a violation.",
              note="scope is the property's quantifier (no pre-existing cache); leader/volume cuts at record boundaries +-1, images at every cut of the family (every byte in the thorough tier)", ref="6 C18"),
 }
+SESSION = ["C01", "C02", "C03", "C04", "C06", "C07", "C08", "C09", "C10", "C12", "C13", "C14", "C16", "C18", "C19"]
+for i in SESSION:
+    BUILT[i]["tech"] += ("; composed TLA+ specification Alos2.tla (the reader as one session: opens, loads, in-place modification, copies, CLI, redelivery, damage, index "
+                         "cells torn / deleted / blocked / purged, unusable cache directory): TLC-simulated behaviours replayed step by step in one process against fresh-process "
+                         "references, and recorded random sessions validated line by line by TLC (Trace_Alos2.tla)")
+    BUILT[i]["text"] += (" Session part: Alos2.tla behaviours (selected by history patterns) replayed in one process and 16 (160) recorded 40 (60)-step sessions validated by TLC; "
+                         "the finding classes this property owns are reported.")
+EXTRA = {
+ "C01": "; TLAPS proofs of the unbounded chunk arithmetic (ChunkProofs.tla); rpc up to 2^63-1 on four filesystems; transient-fault filesystem (raise or right)",
+ "C02": "; TLAPS proofs that every slice position lies on the axis for all n, start, stop, step (IndexProofs.tla)",
+ "C04": "; declared-but-informational values (FileFormat!Informational) varied; first-point date/time text styles",
+ "C05": "; declared-but-informational values varied; concurrent opens of different products (1 us switch interval)",
+ "C06": "; TLAPS proofs (ChunkProofs.tla); size family with chunks across 2^26 and 2^31 bytes (sparse 2.2 GB file); jitter; shared option dict; partial-read sequences",
+ "C07": "; filesystem where a missing object is PermissionError",
+ "C08": "; index files exchanged between processes with different locale encodings",
+ "C09": "; crash at every system-call boundary of the strace-recorded writers with the call sequence validated by TLC (Trace_CacheSys.tla); persisting faults; concurrent default openers with delayed unlink/rename",
+ "C10": "; exhaustive BFS of Alos2.tla; concurrent opens",
+ "C11": "; TLAPS proofs (ChunkProofs.tla); size family; transient faults (a failed request is not a read, delivered groups are not requested again); index-opened and copied trees; pointwise selections",
+ "C16": "; 800 (6000) seconds x hundredths stamps; transient fault while VOL/LED/summary is fetched; each text field blank on its own; NUL padding",
+ "C17": "; text encodings of dates in Calendar.tla with a must-fail greedy decoder; process time zones with and without DST; trees parsed / parsed while indexed / served from the index",
+ "C19": "; LockOf (copies share the lock), filesystem with one file object per path (memory:// semantics), two separately opened trees, same line as integer and as block, 12 MB loads with jitter",
+ "C20": "; complex fields with one half blank",
+}
+for i, t in EXTRA.items():
+    BUILT[i]["tech"] += t
 props = [json.loads(l) for l in open(f"{V}/properties.jsonl")]
 checks, na = [], []
 for p in props:
